@@ -101,6 +101,13 @@ def run_case(case, ctx):
             if rng.random() < 0.7:
                 params.update(target=None, sd_hat=None)
         ctx.count("whole_number_streams")
+    if name == "NNDVI" and rng.random() < 0.4:
+        # neighbourhoods larger than single batches (they are taken over the pooled points): batches of k/2+1 .. 3k rows, so a drift
+        # can be reported on a batch that is shorter than k_nn
+        kk = int(rng.choice([8, 12, 20]))
+        params["k_nn"] = kk
+        items = gen.batch_sequence(rng, len(items), items[0].shape[1], size=(kk // 2 + 2, 3 * kk), shift_p=0.5, dup_p=0.0, integer_p=0.0, const_p=0.0)
+        ctx.count("nndvi_histories_with_batches_shorter_than_k")
     k = zoo.kind(name)
     key = case.get("seed_key", case["id"])
     det = zoo.make(name, params)
@@ -172,7 +179,12 @@ def run_case(case, ctx):
                 zoo.feed(twin, name, item)
             except ValueError as e:
                 if name == "CUSUM" and "Standard deviation is 0" in str(e):
-                    break
+                    # the running detector got past this sample (it would have left the loop above otherwise): it is working with
+                    # something else than the statistics of the carried-over window
+                    ctx.violation("C02/CUSUM/zero_variance_carry_over", "CUSUM (call %d): a fresh detector given the carried-over mean / deviation (%r / %r) raises the "
+                                  "documented zero-variance error here, the running detector carries on with state %r" % (
+                                      i, getattr(twin, "target", None), getattr(twin, "sd_hat", None), det.drift_state), **base)
+                    return
                 raise
             epoch_pos += 1
             steps += 1
